@@ -112,8 +112,9 @@ def search(prop, failure, scratch, seed):
 
 def rerun(doc):
     scratch = cl.scratch_dir()
-    if doc.get('replay_kind') in ('eval', 'evalimm', 'tree', 'typed', 'iter'):
-        line = '\t'.join([doc['replay_kind'], hx(doc['expr'])] + (doc.get('binds') or []))
+    if doc.get('replay_kind') in ('eval', 'evalimm', 'tree', 'typed', 'iter', 'api'):
+        import witness_pools
+        line = witness_pools.encode(doc['replay_kind'], [tuple(x) for x in doc['expr']] if doc['replay_kind'] == 'api' else doc['expr'], doc.get('binds') or [], hx)
         out = run_lines(scratch, [line])
         print('replay input   :', doc['input'])
         print('observed now   :', (out or ['replay build failed'])[0])
